@@ -62,6 +62,27 @@ func c15Wrap(depth int, f c15Fn) c15Site {
 	return c15Wrap(depth-1, f)
 }
 
+// c15Inl: small wrapper functions the compiler is free to inline (mid-stack inlining): the frames are then
+// logical ones, which runtime.CallersFrames expands and a PC-to-function lookup would not.
+func c15I1(f c15Fn) c15Site { return f() }
+func c15I2(f c15Fn) c15Site { return c15I1(f) }
+func c15I3(f c15Fn) c15Site { return c15I2(f) }
+func c15I4(f c15Fn) c15Site { return c15I3(f) }
+
+func c15WrapInlinable(depth int, f c15Fn) c15Site {
+	switch depth {
+	case 0:
+		return f()
+	case 1:
+		return c15I1(f)
+	case 2:
+		return c15I2(f)
+	case 3:
+		return c15I3(f)
+	}
+	return c15I4(f)
+}
+
 //go:noinline
 func c15Deep(n int, f func() c15Site) c15Site {
 	if n == 0 {
@@ -282,7 +303,11 @@ func propC15(t *rapid.T) {
 		runtime.GC()
 		runtime.GC()
 	}
-	want := c15Deep(depth, func() c15Site { return c15Wrap(skip, fr.f) })
+	wrapFn := c15Wrap
+	if skip <= 4 && rapid.Bool().Draw(t, "inlinableWrappers") {
+		wrapFn = c15WrapInlinable
+	}
+	want := c15Deep(depth, func() c15Site { return wrapFn(skip, fr.f) })
 	all := logs.All()
 	desc := fmt.Sprintf("front %s level %d skip %d depth %d chain %v", fr.name, fr.lvl, skip, depth, chain)
 	if len(all) == 0 {
